@@ -29,7 +29,9 @@ RULE = ('phase diagrams: product of (number of reactions 1-8, rotation of the re
         'or a tie exists, or the extremum is a transition state. Containers and number types of grids / factors / '
         'fixed conditions, repeated scans, second diagrams: one deviation from the default case. Energy spans with '
         'ideal-gas species: product of (profile, gas pattern, condition set); non-trivial when a pressure other than '
-        'the default is requested')
+        'the default is requested. Species naming schemes x every per-species scan variable, and states with two '
+        'pressure-dependent species in either order x per-species condition sets: full products over reduced profile / '
+        'size sets')
 ASSUMPTIONS = ['species are real StatMech objects from a fixed table (energies on a lattice chosen so that lines cross)',
                'ties (equal normalised energies / equal extremal state energies) accept any of the tied answers',
                'the index type of the reported stable phase (int / integral float) is not part of the property',
@@ -55,9 +57,9 @@ SIZES2 = {'quick': [(1, 1), (1, 5), (2, 5), (5, 2), (5, 5), (2, 30), (30, 1)],
           'thorough': [(1, 1), (1, 5), (2, 5), (5, 2), (5, 5), (2, 30), (30, 1), (30, 5), (5, 30), (30, 30)]}
 LAT = [-2.0, -1.0, 0.0, 1.0, 2.0]
 LAT3 = [-1.0, 0.0, 1.0]
-N_PD_SHARDS = 12
-N_SPAN_SHARDS = 12
-N_SPANC_SHARDS = 12
+N_PD_SHARDS = 16
+N_SPAN_SHARDS = 8
+N_SPANC_SHARDS = 16
 
 # ---- containers / number types of the grids, factors and fixed conditions (strengthening after seeded changes)
 NORMS_INT = [1, 2, 3, 4]
@@ -68,6 +70,39 @@ FORMS_NUM = ['array', 'intlist', 'intarray', 'range', 'inttuple', 'desc', 'shuff
 FORMS_DICT = ['tuple', 'intdict', 'desc', 'shuffled']
 NFORMS = ['intlist', 'intarray', 'tuple', 'none', 'omitted']
 TWINS = ['new', 'deepcopy', 'dict']
+
+# ---- species naming schemes and every per-species scan variable (third round of seeded changes): the per-species
+# conditions are addressed by NAME ('<name>_kwargs'), so the shape of the names is part of the alphabet
+GASES = ['O2', 'H2O', 'H2']
+SCHEMES = ['us', 'pre', 'paren', 'affix']
+SPECIES_SCANS = ['O2_kwargs', 'H2O_kwargs', 'H2_kwargs']
+PAIRS_NAMES = [('O2_kwargs', 'H2O_kwargs'), ('T', 'O2_kwargs'), ('H2O_kwargs', 'T'), ('H2_kwargs', 'H2O_kwargs'),
+               ('P', 'H2_kwargs')]
+
+
+def _name(tag, scheme):
+    """The name a species of the table carries.  None: the tag itself ('O2', 'MO1').  'us': underscore suffix
+    ('O2_g', 'MO1_s').  'pre': underscore prefix shared by all gases ('gas_O2', 'surf_MO1').  'paren': parentheses
+    ('O2(g)', 'MO1(S)').  'affix': gas names that are a suffix / a prefix of one another ('O', 'H2O', 'H2')."""
+    gas = tag in GASES
+    if not scheme:
+        return tag
+    if scheme == 'us':
+        return tag + ('_g' if gas else '_s')
+    if scheme == 'pre':
+        return ('gas_' if gas else 'surf_') + tag
+    if scheme == 'paren':
+        return tag + ('(g)' if gas else '(S)')
+    if scheme == 'affix':
+        return {'O2': 'O', 'H2O': 'H2O', 'H2': 'H2'}.get(tag, tag)
+    raise ValueError(scheme)
+
+
+def _key(name, scheme):
+    """The keyword a scan variable / fixed condition has under the naming scheme ('O2_kwargs' -> 'O2_g_kwargs')."""
+    if name.endswith('_kwargs'):
+        return _name(name[:-len('_kwargs')], scheme) + '_kwargs'
+    return name
 
 PLANNED_TAGS = ['pd:1D', 'pd:2D', 'pd:argmin-changes-along-grid', 'pd:argmin-constant', 'pd:n_rxn==n_x',
                 'pd:n_rxn!=n_x', 'pd:units', 'pd:dimensionless', 'pd:scan-T', 'pd:scan-P', 'pd:scan-O2_kwargs',
@@ -82,11 +117,20 @@ PLANNED_TAGS = ['pd:1D', 'pd:2D', 'pd:argmin-changes-along-grid', 'pd:argmin-con
                 'pd:norm-intlist', 'pd:norm-intarray', 'pd:norm-tuple', 'pd:norm-none', 'pd:norm-omitted',
                 'pd:fixed-conditions-int', 'pd:fixed-empty-species-kwargs', 'pd:again-same', 'pd:again-edited',
                 'pd:again-2D', 'pd:twin-new', 'pd:twin-deepcopy', 'pd:twin-dict',
+                # third round: every per-species scan variable, species naming schemes, all other species fixed
+                'pd:scan-H2_kwargs', 'pd:names-us', 'pd:names-pre', 'pd:names-paren', 'pd:names-affix',
+                'pd:names-2D', 'pd:fixed-all-other-species',
                 'spanc:max-before-min', 'spanc:max-after-min', 'spanc:tie',
                 'spanc:before+overall-term-depends-on-conditions', 'spanc:extrema-move-with-conditions',
                 'spanc:cond-P-omitted', 'spanc:cond-P', 'spanc:cond-species-P', 'spanc:cond-P-+-species-P',
                 'spanc:mid-gas', 'spanc:end-gas', 'spanc:int-T', 'spanc:float-T', 'spanc:int-P', 'spanc:edit-append',
-                'spanc:second-call', 'spanc:Reactions', 'spanc:Network']
+                'spanc:second-call', 'spanc:Reactions', 'spanc:Network',
+                # third round: two pressure-dependent species in one state, surface species with conditions of their
+                # own, the gases under other names, the smallest span over the (single) route
+                'spanc:two-gases-in-one-state', 'spanc:earlier-species-own-P,later-overall',
+                'spanc:later-species-own-P,earlier-overall', 'spanc:both-species-own-P',
+                'spanc:cond-P-+-surface-species-P', 'spanc:Network.min', 'spanc:names-us', 'spanc:names-pre',
+                'spanc:names-paren', 'spanc:names-prefix', 'spanc:names-suffix']
 
 
 def bounds(tier):
@@ -104,6 +148,15 @@ def bounds(tier):
                 histories=['scan, edit norm_factors, scan', 'scan, overwrite result (+ edit grid in place), scan',
                            'diagram A, diagram B made by new/deepcopy/from_dict and edited, A again',
                            'span, append step, span', 'span twice with the same keyword objects'],
+                species_names=dict(schemes=['table names'] + SCHEMES, example={s_: [_name(g, s_) for g in GASES] for s_ in SCHEMES},
+                                   per_species_scans=SPECIES_SCANS, pairs_2D=PAIRS_NAMES,
+                                   where='1-D: n 1-8 x 3 per-species scans x sizes 2, 5 (1, 30 for n in 1, 3, 8) x fixed '
+                                         "conditions 'a' / 's' (every other gas at a pressure of its own) + one deviation "
+                                         'at size 5; T and P scans with fixed per-species conditions; 2-D: 5 pairs x '
+                                         '(2,5) / (5,2)'),
+                span_two_gases=dict(patterns=TWO_GAS_PATTERNS, conditions=(TWO_GAS_CONDS if tier == 'quick' else 'all (3 steps: %r)' % TWO_GAS_CONDS),
+                                    gas_names=GAS_NAMES, named_patterns=NAMED_PATTERNS, named_conditions=NAMED_CONDS,
+                                    routes=['Reactions.get_E_span', 'Network.get_E_span', 'Network.get_min_E_span']),
                 span_conditions=dict(gas_patterns=GAS_PATTERNS + MID_PATTERNS, conditions=SPAN_CONDS, T=[300, 650.0],
                                      profiles=('1-2 steps on {-1,0,1} all TS codes, 3 steps first state 0 with 3 TS codes'
                                                if tier == 'quick' else
@@ -111,18 +164,18 @@ def bounds(tier):
 
 
 # =================================================================== phase diagrams
-def _species():
+def _species(scheme=None):
     from pmutt.statmech import StatMech, trans, rot, vib, elec
 
     def gas(name, E, wn, rt, geom, sig, mw, el):
-        return StatMech(name=name, elements=el,
+        return StatMech(name=_name(name, scheme), elements=el,
                         trans_model=trans.FreeTrans(n_degrees=3, molecular_weight=mw),
                         vib_model=vib.HarmonicVib(vib_wavenumbers=list(wn)),
                         rot_model=rot.RigidRotor(symmetrynumber=sig, geometry=geom, rot_temperatures=list(rt)),
                         elec_model=elec.GroundStateElec(potentialenergy=E, spin=0))
 
     def solid(name, E, wn, el):
-        return StatMech(name=name, elements=el, vib_model=vib.HarmonicVib(vib_wavenumbers=list(wn)),
+        return StatMech(name=_name(name, scheme), elements=el, vib_model=vib.HarmonicVib(vib_wavenumbers=list(wn)),
                         elec_model=elec.GroundStateElec(potentialenergy=E, spin=0))
 
     sp = {'O2': gas('O2', E_O2, [2205.0], [2.08], 'linear', 2, 31.998, {'O': 2}),
@@ -162,7 +215,7 @@ def _reaction(tag, sp):
 
 def _diagram(case):
     from pmutt.reaction.phasediagram import PhaseDiagram
-    sp = _species()
+    sp = _species(case.get('names'))
     order = RXN_ORDER[case['rot']:] + RXN_ORDER[:case['rot']]
     tags = order[:case['n']]
     rxns = [_reaction(t, sp) for t in tags]
@@ -271,11 +324,26 @@ def _same(x, snap):
     return bool(x == snap)
 
 
-def _base(names, variant):
+FIXED_S = {'O2_kwargs': 1e-10, 'H2O_kwargs': 1e-3, 'H2_kwargs': 1e-5}
+
+
+def _base(names, variant, scheme=None):
     """Fixed conditions for everything that is not scanned (a fresh dict every call).
     'a' floats; 'b' other values + per-species pressures; 'i' the values of 'a' as Python ints; 'e' the values of
-    'a' plus explicitly empty per-species dicts."""
+    'a' plus explicitly empty per-species dicts; 's' general T and P plus a pressure of its own for EVERY gas that
+    is not scanned.  `names` are the scan variables by their table names; the keys follow the naming scheme."""
+    if scheme:
+        return {_key(k, scheme): v for k, v in _base(names, variant).items()}
     kw = {}
+    if variant == 's':
+        if 'T' not in names:
+            kw['T'] = 950.0
+        if 'P' not in names:
+            kw['P'] = 1e-2
+        for k, p in FIXED_S.items():
+            if k not in names:
+                kw[k] = {'P': p}
+        return kw
     if variant == 'i':
         if 'T' not in names:
             kw['T'] = 800
@@ -345,8 +413,10 @@ def _pd_sig(case):
             s['grid'] = '%s,%s' % tuple(f or 'list' for f in case['gforms'])
     if case.get('nform'):
         s['norms'] = case['nform']
-    if case.get('base') in ('i', 'e'):
-        s['fixed'] = {'i': 'ints', 'e': 'empty species kwargs'}[case['base']]
+    if case.get('base') in ('i', 'e', 's'):
+        s['fixed'] = {'i': 'ints', 'e': 'empty species kwargs', 's': 'all other species'}[case['base']]
+    if case.get('names'):
+        s['names'] = case['names']
     return s
 
 
@@ -432,11 +502,16 @@ def _twin(pd, case, route):
 def _run_pd1(case, ctx):
     sig = _pd_sig(case)
     pd, rxns, norms = _diagram(case)
-    name, units = case['scan'], case['units']
-    grid = _grid(name, case['nx'], case.get('gform'))
-    base = _base([name], case['base'])
+    scheme, units = case.get('names'), case['units']
+    name = _key(case['scan'], scheme)                       # the keyword as the caller writes it
+    grid = _grid(case['scan'], case['nx'], case.get('gform'))
+    base = _base([case['scan']], case['base'], scheme)
     ctx.tag('pd:1D')
-    ctx.tag('pd:scan-' + name)
+    ctx.tag('pd:scan-' + case['scan'])
+    if scheme:
+        ctx.tag('pd:names-' + scheme)
+    if case['base'] == 's':
+        ctx.tag('pd:fixed-all-other-species')
     ctx.tag('pd:units' if units else 'pd:dimensionless')
     if case['n'] == 1:
         ctx.tag('pd:single-reaction')
@@ -499,15 +574,21 @@ def _run_pd1(case, ctx):
 def _run_pd2(case, ctx):
     sig = _pd_sig(case)
     pd, rxns, norms = _diagram(case)
-    (a, b), (na, nb), units = case['pair'], case['sizes'], case['units']
+    (ta, tb), (na, nb), units, scheme = case['pair'], case['sizes'], case['units'], case.get('names')
+    a, b = _key(ta, scheme), _key(tb, scheme)               # the keywords as the caller writes them
     fa, fb = case.get('gforms') or (None, None)
-    ga, gb = _grid(a, na, fa), _grid(b, nb, fb)
+    ga, gb = _grid(ta, na, fa), _grid(tb, nb, fb)
     ea, eb = [_oelem(g) for g in ga], [_oelem(g) for g in gb]
-    base = _base([a, b], case['base'])
+    base = _base([ta, tb], case['base'], scheme)
     n = len(rxns)
     ctx.tag('pd:2D')
-    ctx.tag('pd:scan-' + a)
-    ctx.tag('pd:scan-' + b)
+    ctx.tag('pd:scan-' + ta)
+    ctx.tag('pd:scan-' + tb)
+    if scheme:
+        ctx.tag('pd:names-' + scheme)
+        ctx.tag('pd:names-2D')
+    if case['base'] == 's':
+        ctx.tag('pd:fixed-all-other-species')
     ctx.tag('pd:units' if units else 'pd:dimensionless')
     if fa or fb:
         ctx.tag('pd:2D-grid-forms')
@@ -602,7 +683,7 @@ def _pd1_cases(tier):
     def emit(**kw):
         case = dict(kind='pd1', n=kw['n'], rot=kw['rot'], off=kw['off'], scan=kw['scan'], nx=kw['nx'],
                     units=kw['units'], base=kw['base'], normlist=kw['normlist'])
-        for opt in ('hist', 'gform', 'nform', 'again', 'twin'):
+        for opt in ('hist', 'gform', 'nform', 'again', 'twin', 'names'):
             if kw.get(opt):
                 case[opt] = kw[opt]
         key = tuple(sorted((k, str(v)) for k, v in case.items()))
@@ -610,6 +691,39 @@ def _pd1_cases(tier):
             seen.add(key)
             return case
         return None
+
+    def names_family():
+        # every per-species scan variable (the product-side gas H2 as well) under every naming scheme, and the
+        # scheme-free H2 scan; fixed conditions 'a' and 's' (every other gas at a pressure of its own, addressed
+        # by its name); T and P scans with the per-species conditions fixed under the scheme's names
+        full = tier == 'thorough'
+        for scheme in [None] + SCHEMES:
+            for n in range(1, 9):
+                for scan in SPECIES_SCANS:
+                    for nx in (1, 2, 5, 30):
+                        if nx in (1, 30) and not (full or n in (1, 3, 8)):
+                            continue
+                        for units in (UNITS if (full or (scheme is None and scan == 'H2_kwargs')) else (None, 'eV')):
+                            devs = [dict()]
+                            if nx in (2, 5):
+                                devs.append(dict(base='s'))
+                            if nx == 5 and units != 'kJ/mol':
+                                devs += [dict(base='b'), dict(base='e'), dict(gform='tuple'), dict(gform='shuffled'),
+                                         dict(again='edited'), dict(base='s', hist='inplace')]
+                                if scheme is None or full:
+                                    devs += [dict(gform='intdict'), dict(gform='desc'), dict(again='same'),
+                                             dict(twin='new')]
+                            for dv in devs:
+                                kw = dict(n=n, rot=0, off=0, scan=scan, nx=nx, units=units, base='a', normlist=False,
+                                          names=scheme)
+                                kw.update(dv)
+                                yield emit(**kw)
+                for scan in ('T', 'P'):
+                    for nx in ((2, 5) if full else (5,)):
+                        for units in (UNITS if full else (None, 'eV')):
+                            for base in ('s', 'b', 'e'):
+                                yield emit(n=n, rot=0, off=0, scan=scan, nx=nx, units=units, base=base, normlist=False,
+                                           names=scheme)
 
     rots = [0] if tier == 'quick' else [0, 2, 4, 6]
     offs = [0] if tier == 'quick' else [0, 1, 2, 3]
@@ -651,6 +765,9 @@ def _pd1_cases(tier):
                         c = emit(**kw)
                         if c:
                             yield c
+    for c in names_family():
+        if c:
+            yield c
 
 
 def _pd2_cases(tier):
@@ -685,6 +802,24 @@ def _pd2_cases(tier):
                                     base='a', normlist=False)
                         case.update(dv)
                         yield case
+    # every per-species scan variable under every naming scheme (and the scheme-free pairs with H2), all other gases
+    # at a pressure of their own
+    full = tier == 'thorough'
+    for scheme in [None] + SCHEMES:
+        for n in ((1, 3, 8) if not full else range(1, 9)):
+            for pair in PAIRS_NAMES:
+                if scheme is None and 'H2_kwargs' not in pair and not full:
+                    continue
+                for sizes in (((2, 5), (5, 2)) if not full else ((1, 1), (2, 5), (5, 2), (5, 5), (2, 30))):
+                    for units in ((None, 'eV') if not full else UNITS):
+                        for base in ('a', 's'):
+                            if not full and (base == 's') != (sizes == (5, 2)):
+                                continue            # quick: 'a' with the (2, 5) scan, 's' with the (5, 2) scan
+                            case = dict(kind='pd2', n=n, rot=0, off=0, pair=list(pair), sizes=list(sizes), units=units,
+                                        base=base, normlist=False)
+                            if scheme:
+                                case['names'] = scheme
+                            yield case
 
 
 # =================================================================== energy spans
@@ -866,17 +1001,31 @@ SPAN_CONDS = [dict(),                                                   # 0 pres
               dict(P=1.0, A_kwargs=dict(P=1e-5)),                       # 4 species-specific over the default
               dict(P=1e-6, B_kwargs=dict(P=10.0)),                      # 5 species-specific over a general pressure
               dict(A_kwargs=dict(P=1e-4), B_kwargs=dict(P=20)),         # 6 only species-specific (one a Python int)
-              dict(P=1e-3, A_kwargs=dict(), B_kwargs=dict(P=1e-3))]     # 7 empty species dict; same value by both routes
+              dict(P=1e-3, A_kwargs=dict(), B_kwargs=dict(P=1e-3)),     # 7 empty species dict; same value by both routes
+              dict(P=1e-2, S0_kwargs=dict(P=1e-7), S1_kwargs=dict(P=1e3))]   # 8 conditions of their own for the
+#                                                  pressure-independent surface species listed before the gases
+# Third round: states that hold TWO pressure-dependent species, in either order ('first|last' as above; ';*B' = B is
+# present in every state - transition states included - listed after the state's own gases, ';B*' = listed before
+# them), so that the conditions of one species of a state differ from those of the next species of the same state.
+TWO_GAS_PATTERNS = ['A+B|-', 'B+A|-', '-|A+B', '-|B+2A', 'A|-;*B', 'A|-;B*', '-|A;*B', '-|2A;B*', 'B|-;*A', '-|B;A*',
+                    'A|A;*0.5B', '2B|B;A*']
+TWO_GAS_CONDS = [4, 5, 6, 7, 8]
+# names the two gases carry (the per-species conditions are addressed by name): underscores, parentheses, one name
+# a prefix / a suffix of the other
+GAS_NAMES = {'us': dict(A='A_g', B='B_g'), 'pre': dict(A='gas_A', B='gas_B'), 'paren': dict(A='A(g)', B='B(g)'),
+             'prefix': dict(A='CO', B='CO2'), 'suffix': dict(A='CO2', B='O2')}
+NAMED_PATTERNS = ['A|B', 'B+2A|-', 'A|-;*B']
+NAMED_CONDS = [4, 5, 6]
 _GAS_DEF = {'A': dict(E=0.4, wn=[2121.2], rt=[2.78], geom='linear', sig=1, mw=28.01, el={'C': 1, 'O': 1}),
             'B': dict(E=0.3, wn=[667.0, 667.0, 1333.0, 2349.0], rt=[0.561], geom='linear', sig=2, mw=44.01,
                       el={'C': 1, 'O': 2})}
 _G1 = {}
 
 
-def _gas(name):
+def _gas(name, as_name=None):
     from pmutt.statmech import StatMech, trans, rot, vib, elec
     d = _GAS_DEF[name]
-    return StatMech(name=name, elements=d['el'], trans_model=trans.FreeTrans(n_degrees=3, molecular_weight=d['mw']),
+    return StatMech(name=as_name or name, elements=d['el'], trans_model=trans.FreeTrans(n_degrees=3, molecular_weight=d['mw']),
                     vib_model=vib.HarmonicVib(vib_wavenumbers=list(d['wn'])),
                     rot_model=rot.RigidRotor(symmetrynumber=d['sig'], geometry=d['geom'],
                                              rot_temperatures=list(d['rt'])),
@@ -894,9 +1043,14 @@ def _gas_G(name, T, P):
 
 
 def _parse_tok(tok):
+    """'-' -> []; '2A' -> [('A', 2)]; 'B+2A' -> [('B', 1), ('A', 2)]; '0.5B' -> [('B', 0.5)] (order kept)."""
     if tok == '-':
         return []
-    return [(tok[-1], int(tok[:-1]) if len(tok) > 1 else 1)]
+    out = []
+    for t in tok.split('+'):
+        coef = t[:-1]
+        out.append((t[-1], 1 if not coef else (int(coef) if coef.isdigit() else float(coef))))
+    return out
 
 
 def _spanc_steps(case):
@@ -904,18 +1058,22 @@ def _spanc_steps(case):
     g, ts, pat = case['g'], case['ts'], case['gas']
     k = len(ts)
     gin, gout = [[] for _ in range(k)], [[] for _ in range(k)]
+    mid_pat, every = pat.startswith('mid'), ''
     if pat == 'mid:A>':
         gin[1] = [('A', 1)]
     elif pat == 'mid:>B':
         gout[0] = [('B', 1)]
     else:
+        pat, _, every = pat.partition(';')
         first, last = pat.split('|')
         gin[0], gout[k - 1] = _parse_tok(first), _parse_tok(last)
+    pre = _parse_tok(every[:-1]) if (not mid_pat and every.endswith('*')) else []
+    post = _parse_tok(every[1:]) if (not mid_pat and every.startswith('*')) else []
     steps = []
     for i in range(k):
-        r = ('S%d' % i, g[i], gin[i])
-        p = ('S%d' % (i + 1), g[i + 1], gout[i])
-        t = ('TS%d' % i, max(g[i], g[i + 1]) + 1.0, []) if ts[i] else None
+        r = ('S%d' % i, g[i], pre + gin[i] + post)
+        p = ('S%d' % (i + 1), g[i + 1], pre + gout[i] + post)
+        t = ('TS%d' % i, max(g[i], g[i + 1]) + 1.0, pre + post) if ts[i] else None
         steps.append((r, t, p))
     return steps
 
@@ -932,6 +1090,8 @@ def _state_G(state, T, cond):
 
 
 def _cond_kind(cond):
+    if any(k.startswith('S') and k.endswith('_kwargs') for k in cond):
+        return 'P + surface-species P'
     sp = any(k.endswith('_kwargs') and v for k, v in cond.items())
     gen = 'P' in cond
     return {(False, False): 'P omitted', (True, False): 'P', (False, True): 'species P',
@@ -939,6 +1099,19 @@ def _cond_kind(cond):
 
 
 def _spanc_cases(tier):
+    """Every case carries its own options: 'light' (one unit per route, no repeated call: the third-round families
+    in the quick tier) and 'minroute' (get_min_E_span as a third route: the third-round families, the surface-species
+    conditions, and the first temperature of every older pattern in the thorough tier)."""
+    for case in _spanc_cases_plain(tier):
+        new = case['gas'] in TWO_GAS_PATTERNS or bool(case.get('names'))
+        if tier == 'quick' and new:
+            case['light'] = True
+        if new or case['cond'] == 8 or case.get('Ti') == 0:
+            case['minroute'] = True
+        yield case
+
+
+def _spanc_cases_plain(tier):
     def profiles():
         if tier == 'quick':
             for k in (1, 2):
@@ -968,6 +1141,25 @@ def _spanc_cases(tier):
                     if len(ts) >= 2 and ci in (2, 5):
                         case['edit'] = True
                     yield case
+    # two pressure-dependent species in one state (quick: 3-step profiles with the middle transition state only)
+    for g, ts in profiles():
+        if tier == 'quick' and len(ts) == 3 and tuple(ts) != (0, 1, 0):
+            continue
+        for pat in TWO_GAS_PATTERNS:
+            for ci in (TWO_GAS_CONDS if (tier == 'quick' or len(ts) == 3) else range(len(SPAN_CONDS))):
+                # (the temperature alternates with the profile and the conditions)
+                case = dict(kind='spanc', g=g, ts=ts, gas=pat, cond=ci)
+                if len(ts) >= 2 and ci == 5:
+                    case['edit'] = True
+                yield case
+    # the gases under other names (1- and 2-step profiles; quick: 2 steps without / with both transition states)
+    for g, ts in profiles():
+        if len(ts) > 2 or (tier == 'quick' and len(ts) == 2 and ts[0] != ts[1]):
+            continue
+        for scheme in sorted(GAS_NAMES):
+            for pat in NAMED_PATTERNS:
+                for ci in NAMED_CONDS:
+                    yield dict(kind='spanc', g=g, ts=ts, gas=pat, cond=ci, names=scheme)
 
 
 def _spanc_T(case):
@@ -978,8 +1170,12 @@ def _spanc_T(case):
 
 
 def _spanc_sig(case, api=None, units=None, history=None):
-    s = dict(part='e-span', family='gas species and pressures', gas='mid' if case['gas'].startswith('mid') else 'ends',
+    s = dict(part='e-span', family='gas species and pressures',
+             gas=('mid' if case['gas'].startswith('mid') else 'two in one state' if case['gas'] in TWO_GAS_PATTERNS
+                  else 'ends'),
              cond=_cond_kind(SPAN_CONDS[case['cond']]))
+    if case.get('names'):
+        s['names'] = case['names']
     if api:
         s['api'] = api
         s['units'] = units or 'none'
@@ -998,8 +1194,25 @@ def _run_spanc(case, ctx):
     T = _spanc_T(case)
     k = len(steps)
     mid = case['gas'].startswith('mid')
-    gases = {'A': _gas('A'), 'B': _gas('B')}
+    gname = dict(GAS_NAMES[case['names']]) if case.get('names') else dict(A='A', B='B')   # names the gases carry
+    gases = {'A': _gas('A', gname['A']), 'B': _gas('B', gname['B'])}
     surf = {}
+    if case.get('names'):
+        ctx.tag('spanc:names-' + case['names'])
+    if case['gas'] in TWO_GAS_PATTERNS:
+        ctx.tag('spanc:two-gases-in-one-state')
+        # the collision itself: a state whose gases are at different effective pressures, by the order in the state
+        for st in steps:
+            for s_ in st:
+                if s_ is not None and len(s_[2]) == 2:
+                    p0, p1 = _peff(s_[2][0][0], cond), _peff(s_[2][1][0], cond)
+                    own0, own1 = [bool((cond.get('%s_kwargs' % s_[2][i][0]) or {}).get('P') is not None) for i in (0, 1)]
+                    if p0 != p1 and own0 and not own1:
+                        ctx.tag('spanc:earlier-species-own-P,later-overall')
+                    if p0 != p1 and own1 and not own0:
+                        ctx.tag('spanc:later-species-own-P,earlier-overall')
+                    if p0 != p1 and own0 and own1:
+                        ctx.tag('spanc:both-species-own-P')
 
     def species(state):
         name, e, gl = state
@@ -1046,7 +1259,13 @@ def _run_spanc(case, ctx):
             return cs[0]
 
     def kwargs():
-        return dict(T=T, **{k_: (dict(v) if isinstance(v, dict) else v) for k_, v in cond.items()})
+        # fresh keyword objects; the per-species conditions under the names the gases carry
+        out = dict(T=T)
+        for k_, v in cond.items():
+            if k_ in ('A_kwargs', 'B_kwargs'):
+                k_ = '%s_kwargs' % gname[k_[0]]
+            out[k_] = dict(v) if isinstance(v, dict) else v
+        return out
 
     seq = Reactions(reactions=list(rxns[:-1]) if case.get('edit') else list(rxns))
     hist = None
@@ -1062,7 +1281,10 @@ def _run_spanc(case, ctx):
                   case, rtol=1e-9, scale=scale)
         seq.reactions.append(rxns[-1])
     ctx.tag('spanc:Reactions')
-    for units in ('eV', 'kJ/mol'):
+    # the families of the third round (two gases in one state, other names) take one unit per route in the quick
+    # tier: the unit conversion and the repeated call are exercised by the older patterns
+    light = bool(case.get('light'))
+    for units in (('eV',) if light else ('eV', 'kJ/mol')):
         kw = kwargs()
         snap = copy.deepcopy(kw)
         obs = seq.get_E_span(units=units, **kw)
@@ -1072,7 +1294,7 @@ def _run_spanc(case, ctx):
         sig = _spanc_sig(case, 'Reactions', units, hist)
         ctx.close(clause, obs, nearest(obs, cands, f), sig, case, rtol=1e-9, scale=scale * f)
         ctx.true(kept, kw == snap, sig, case, repr(kw), repr(snap))
-        if units == 'eV':
+        if units == 'eV' and not light:
             obs2 = seq.get_E_span(units=units, **kw)
             ctx.trace()
             ctx.evals()
@@ -1087,7 +1309,7 @@ def _run_spanc(case, ctx):
         for s in st:
             if s is None:
                 continue
-            node = frozenset([(s[0], 1)] + [(n, nu) for n, nu in s[2]])
+            node = frozenset([(s[0], 1)] + [(gname[n], nu) for n, nu in s[2]])
             if not path or path[-1] != node:
                 path.append(node)
     for units in ('eV', None):
@@ -1100,6 +1322,22 @@ def _run_spanc(case, ctx):
         sig = _spanc_sig(case, 'Network', units)
         ctx.close(clause, obs, nearest(obs, cands, f), sig, case, rtol=1e-9, scale=scale * f)
         ctx.true(kept, kw == snap, sig, case, repr(kw), repr(snap))
+    # the sequence is the only route from its first to its last state: the smallest span over all routes is its span
+    # (states written as strings, the way get_min_E_span takes them)
+    def state_str(s_):
+        return '+'.join([s_[0]] + [('%s' % gname[n] if nu == 1 else '%r%s' % (nu, gname[n])) for n, nu in s_[2]])
+
+    if not case.get('minroute'):
+        return
+    ctx.tag('spanc:Network.min')
+    kw = kwargs()
+    snap = copy.deepcopy(kw)
+    obs = net.get_min_E_span(source=state_str(steps[0][0]), target=state_str(steps[-1][2]), units='eV', **kw)
+    ctx.trace()
+    ctx.evals()
+    sig = _spanc_sig(case, 'Network.min', 'eV')
+    ctx.close(clause, obs, nearest(obs, cands, 1.0), sig, case, rtol=1e-9, scale=scale)
+    ctx.true(kept, kw == snap, sig, case, repr(kw), repr(snap))
 
 
 # =================================================================== runner interface
@@ -1140,7 +1378,7 @@ def run_shard(shard, ctx):
         elif kind == 'spanc':
             sig = _spanc_sig(case)
             key = ('spanc', tuple(case['g']), tuple(case['ts']), case['gas'], case['cond'], case.get('Ti'),
-                   bool(case.get('edit')))
+                   bool(case.get('edit')), case.get('names'))
             ctx.state(key)
             if case['cond'] not in (0, 1):
                 ctx.nontrivial(key)
@@ -1164,7 +1402,12 @@ LEVEL_TEXT = ('Exhaustive product enumeration on the real PhaseDiagram, Reaction
               'range, descending and unsorted with repeats; integer, list, tuple, None and omitted factors; integer and '
               'empty fixed conditions; caller data unchanged; repeated scans after the result was overwritten or the grid '
               'edited in place; second diagrams made by constructor, deepcopy and from_dict; energy spans of sequences '
-              'with ideal-gas species at general and species-specific pressures (oracle: 1 bar value + kB T ln P).')
+              'with ideal-gas species at general and species-specific pressures (oracle: 1 bar value + kB T ln P). '
+              'Third round: species names with underscores (suffix and shared prefix), parentheses and names that are '
+              'a prefix / suffix of one another in every per-species scan variable (O2, H2O and the product-side H2) and '
+              'fixed condition, 1-D and 2-D; energy-span states holding two pressure-dependent species in either order '
+              '(co-adsorbed, co-desorbed, spectator gas in every state) with conditions of its own for the first, the '
+              'second, both, and for the pressure-independent surface species; get_min_E_span as a third route.')
 LEVEL_NOTE = ('Species from a fixed table whose lines cross along each scan; rotations/offsets of the reaction list by '
               'one deviation in the quick tier, full in the thorough tier; 5-8 step profiles only in the thorough tier '
               '(two deviations from two base profiles). Ties accept any tied answer.')
